@@ -44,6 +44,10 @@ CLAIMS = {
   "For any numeric layer, typing and geometry predicate: a successful UFF construction is stretches ++ bends ++ torsions ++ inversions ++ van der Waals with exactly one stretch per bond, one van der Waals term per non-bonded pair, one bend per angle (periodic form exactly at linear/trigonal-planar/square-planar/octahedral centres), torsions a sublist of the proper dihedrals present exactly when both central types are main-group and no flanking angle is near-linear, inversions a sublist of the impropers with one centred on an improper's centre iff its type is sp2 carbon or has a table row; RB is one stretch per bond at the radii sum with common k plus one repulsion per non-bonded pair with common c and exponent. With C10 this is 'each interaction exactly once'. The model with translated tables/formulas reproduces real term lists bit for bit.",
   TB + "Modelled: UFF::new/RB::new structure and typing rules (corresponded on assigned types and full term lists). Known finding: elements without an own UFF type are typed with a foreign row.",
   "Lean 4 proof (structure of the constructed term list for any numeric layer) + bit-exact term-list correspondence + multiset oracle", "DESIGN.md §5 C11"),
+ "C12": ("proof",
+  "For all argument values: the re-translated Rust expressions for r0, r_BO, r_EN, k_ij, k_ijk (cosine-rule r_ik), the van der Waals mixing and the torsional barriers evaluate over the reals to the published closed forms; with the source's c0, c1, c2 the cosine-harmonic bend equals k (cos t - cos t0)^2 / (2 sin^2 t0), is zero and stationary at t0, non-negative for k >= 0, with second derivative k at t0 (HasDerivAt); the periodic form is chosen exactly at linear/trigonal-planar/square-planar/octahedral centres with n = 4/3/4/4; and the compiled ATOM_TYPES equals field for field (127 x 14, kernel evaluation) what generate_atom_types.py makes of atom_types.txt. The numeric layer built from these translated formulas and tables reproduces the private parameter methods on all type pairs/orders and every parameter of every real term bit for bit.",
+  TB + "Lean re-expression of the python generator is hand-written (trusted, cross-checked by the table theorem itself). Real-number reading of f64 formulas.",
+  "Lean 4 proof (ring/field_simp closed forms, HasDerivAt for the bend, decide +kernel over the whole table) on formulas/tables re-translated each run + bit-exact parameter correspondence", "DESIGN.md §5 C12"),
  "C13": ("proof",
   "For every symbol and every three printed numbers (any widths): an atom line of the written file tokenises into exactly [symbol, x, y, z]; the first line is the count; reading the written lines back yields the same atoms in order with each coordinate = parse(print(value)); the six-decimal rounding rule is within 5e-7 of the value (ties included). Proved on the hand model of XYZFile::write/read; the driver's exact implementations of {:.6} and f64::from_str reproduce the real file bytes and read-back results byte for byte.",
   TB + "Modelled: writer/reader structure (corresponded on file bytes); std formatting/parsing by contract (corresponded).",
